@@ -278,7 +278,33 @@ func (i *Inst) Recover(r io.Reader, stopc <-chan struct{}) (err error) {
 			err = fmt.Errorf("PANIC in snapshot recover: %v", rr)
 		}
 	}()
+	// an install swaps the DB and closes the old one: its disk-health ticker is stopped here, the
+	// way Close does it for the last one (see healthCloser)
+	oldDB, oldCloser := dbOf(i.F), healthCloser(i.F)
+	defer func() {
+		if oldCloser != nil && dbOf(i.F) != oldDB {
+			_ = oldCloser.Close()
+		}
+	}()
 	return i.F.RecoverFromSnapshot(r, stopc)
+}
+
+// dbOf reads the FSM's current pebble DB pointer (nil if the layout differs).
+func dbOf(f *fsm.FSM) (p unsafe.Pointer) {
+	defer func() {
+		if recover() != nil {
+			p = nil
+		}
+	}()
+	pf := reflect.ValueOf(f).Elem().FieldByName("pebble")
+	if !pf.IsValid() {
+		return nil
+	}
+	pv := pf.FieldByName("v")
+	if !pv.IsValid() || pv.Kind() != reflect.UnsafePointer {
+		return nil
+	}
+	return *(*unsafe.Pointer)(unsafe.Pointer(pv.UnsafeAddr()))
 }
 
 // ---------------------------------------------------------------------------------------------
